@@ -126,6 +126,7 @@ struct HintIter<T: Elem> {
     vals: Vec<u32>,
     i: usize,
     hint: u8,
+    huge: bool,
     _m: std::marker::PhantomData<T>,
 }
 impl<T: Elem> Iterator for HintIter<T> {
@@ -138,6 +139,10 @@ impl<T: Elem> Iterator for HintIter<T> {
     }
     fn size_hint(&self) -> (usize, Option<usize>) {
         let rem = self.vals.len() - self.i;
+        if self.huge {
+            // a lower bound no buffer can hold: reserving for it is a capacity overflow
+            return (usize::MAX / 8, None);
+        }
         match self.hint % 4 {
             0 => (rem, Some(rem)),
             1 => (0, None),
@@ -147,8 +152,13 @@ impl<T: Elem> Iterator for HintIter<T> {
     }
 }
 
+/// size_hint with an unrepresentable lower bound (used by `splice` only)
+pub fn hint_iter_huge<T: Elem>(vals: &[u32]) -> impl Iterator<Item = T> {
+    HintIter::<T> { vals: vals.to_vec(), i: 0, hint: 0, huge: true, _m: std::marker::PhantomData }
+}
+
 pub fn hint_iter<T: Elem>(vals: &[u32], hint: u8) -> impl Iterator<Item = T> {
-    HintIter::<T> { vals: vals.to_vec(), i: 0, hint, _m: std::marker::PhantomData }
+    HintIter::<T> { vals: vals.to_vec(), i: 0, hint, huge: false, _m: std::marker::PhantomData }
 }
 
 macro_rules! sel {
@@ -633,7 +643,11 @@ impl<'a: 'b, 'b, T: Elem + Clone + PartialEq, A: BumpAllocatorTypedScope<'a> + C
                 Res::Unit
             }
             Op::Splice(r, vs, consume) => {
-                let out: Vec<u32> = s.splice(rng(r), hint_iter::<T>(vs, (*consume / 5) as u8)).take(*consume % 5).map(|e| e.val()).collect();
+                let out: Vec<u32> = if *consume / 5 >= 4 {
+                    s.splice(rng(r), hint_iter_huge::<T>(vs)).take(*consume % 5).map(|e| e.val()).collect()
+                } else {
+                    s.splice(rng(r), hint_iter::<T>(vs, (*consume / 5) as u8)).take(*consume % 5).map(|e| e.val()).collect()
+                };
                 Res::Vals(out)
             }
             _ => Res::Unsupported,
